@@ -21,8 +21,8 @@ theorem finv_lose (p : Params) (hp : 0 < p.sendLimit) (hr : 0 < p.recvMax) (hc :
     (ha hb : Bool) (ra rb : List AppOp)
     (hcfg : match w with | .A => closeOk hb rb | .B => closeOk ha ra) (pre post : List Ev)
     (hpre : ∀ ev ∈ pre, preEv w ev = true) (hpost : ∀ ev ∈ post, noise ev = true)
-    (hrd : (connOf (run (fresh p ha hb ra rb) pre) (swapSide w)).reading = true) :
-    FInvW w (run (fresh p ha hb ra rb) (pre ++ .app w .lose :: post)) := by
+    (hrd : (connOf (run0 (fresh p ha hb ra rb) pre) (swapSide w)).reading = true) :
+    FInvW w (run0 (fresh p ha hb ra rb) (pre ++ .app w .lose :: post)) := by
   cases w with
   | A =>
     have := (lose_A p hp hc ha hb ra rb hcfg pre post hpre hpost hrd).1
@@ -31,17 +31,17 @@ theorem finv_lose (p : Params) (hp : 0 < p.sendLimit) (hr : 0 < p.recvMax) (hc :
     have := (lose_A p hp hc hb ha rb ra hcfg (pre.map swapEv) (post.map swapEv) (pre_swap pre hpre)
       (post_swap post hpost) (by rw [fresh_swap]; exact hrd)).1
     rw [← map_swap_close, fresh_swap] at this
-    exact ⟨by show 0 < (run _ _).p.sendLimit; rw [run_p]; exact hp,
-           by show 0 < (run _ _).p.recvMax; rw [run_p]; exact hr, Or.inl ⟨false, this⟩⟩
+    exact ⟨by show 0 < (run0 _ _).p.sendLimit; rw [run_p]; exact hp,
+           by show 0 < (run0 _ _).p.recvMax; rw [run_p]; exact hr, Or.inl ⟨false, this⟩⟩
 
 theorem finv_half (p : Params) (hp : 0 < p.sendLimit) (hr : 0 < p.recvMax) (hc : 0 < p.cap) (w : Side)
     (ha hb : Bool) (ra rb : List AppOp)
     (hcfg : match w with | .A => closeOk ha ra ∧ replyOk hb rb | .B => closeOk hb rb ∧ replyOk ha ra)
     (pre post : List Ev)
     (hpre : ∀ ev ∈ pre, preEv w ev = true) (hpost : ∀ ev ∈ post, noise ev = true)
-    (hra : (run (fresh p ha hb ra rb) pre).a.reading = true)
-    (hrb : (run (fresh p ha hb ra rb) pre).b.reading = true) :
-    FInvW w (run (fresh p ha hb ra rb) (pre ++ .app w .loseWrite :: post)) := by
+    (hra : (run0 (fresh p ha hb ra rb) pre).a.reading = true)
+    (hrb : (run0 (fresh p ha hb ra rb) pre).b.reading = true) :
+    FInvW w (run0 (fresh p ha hb ra rb) (pre ++ .app w .loseWrite :: post)) := by
   cases w with
   | A =>
     have := (half_A p hp hc ha hb ra rb hcfg.1 hcfg.2 pre post hpre hpost hra hrb).1
@@ -50,14 +50,14 @@ theorem finv_half (p : Params) (hp : 0 < p.sendLimit) (hr : 0 < p.recvMax) (hc :
     have := (half_A p hp hc hb ha rb ra hcfg.1 hcfg.2 (pre.map swapEv) (post.map swapEv) (pre_swap pre hpre)
       (post_swap post hpost) (by rw [fresh_swap]; exact hrb) (by rw [fresh_swap]; exact hra)).1
     rw [← map_swap_close, fresh_swap] at this
-    exact ⟨by show 0 < (run _ _).p.sendLimit; rw [run_p]; exact hp,
-           by show 0 < (run _ _).p.recvMax; rw [run_p]; exact hr, Or.inr (Or.inl this)⟩
+    exact ⟨by show 0 < (run0 _ _).p.sendLimit; rw [run_p]; exact hp,
+           by show 0 < (run0 _ _).p.recvMax; rw [run_p]; exact hr, Or.inr (Or.inl this)⟩
 
 theorem finv_abort (p : Params) (hp : 0 < p.sendLimit) (hr : 0 < p.recvMax) (w : Side)
     (ha hb : Bool) (ra rb : List AppOp) (pre post : List Ev)
     (hpre : ∀ ev ∈ pre, preEv w ev = true) (hpost : ∀ ev ∈ post, noise ev = true)
-    (hrd : (connOf (run (fresh p ha hb ra rb) pre) (swapSide w)).reading = true) :
-    FInvW w (run (fresh p ha hb ra rb) (pre ++ .app w .abort :: post)) := by
+    (hrd : (connOf (run0 (fresh p ha hb ra rb) pre) (swapSide w)).reading = true) :
+    FInvW w (run0 (fresh p ha hb ra rb) (pre ++ .app w .abort :: post)) := by
   cases w with
   | A =>
     have := (abort_A p ha hb ra rb pre post hp hpre hpost hrd).1
@@ -66,14 +66,14 @@ theorem finv_abort (p : Params) (hp : 0 < p.sendLimit) (hr : 0 < p.recvMax) (w :
     have := (abort_A p hb ha rb ra (pre.map swapEv) (post.map swapEv) hp (pre_swap pre hpre)
       (post_swap post hpost) (by rw [fresh_swap]; exact hrd)).1
     rw [← map_swap_close, fresh_swap] at this
-    exact ⟨by show 0 < (run _ _).p.sendLimit; rw [run_p]; exact hp,
-           by show 0 < (run _ _).p.recvMax; rw [run_p]; exact hr, Or.inr (Or.inr this)⟩
+    exact ⟨by show 0 < (run0 _ _).p.sendLimit; rw [run_p]; exact hp,
+           by show 0 < (run0 _ _).p.recvMax; rw [run_p]; exact hr, Or.inr (Or.inr this)⟩
 
 /-- the fair completion of a schedule is the schedule followed by more noise -/
 theorem runFair_after (fuel : Nat) (s0 : Sys) (pre post : List Ev) (ev : Ev) (hpost : ∀ e ∈ post, noise e = true) :
     ∃ post', (∀ e ∈ post', noise e = true) ∧
-      runFair fuel (run s0 (pre ++ ev :: post)) = run s0 (pre ++ ev :: post') := by
-  obtain ⟨evs, hn, e⟩ := runFair_eq_run fuel (run s0 (pre ++ ev :: post))
+      runFair0 fuel (run0 s0 (pre ++ ev :: post)) = run0 s0 (pre ++ ev :: post') := by
+  obtain ⟨evs, hn, e⟩ := runFair_eq_run fuel (run0 s0 (pre ++ ev :: post))
   refine ⟨post ++ evs, ?_, ?_⟩
   · intro x hx
     rcases List.mem_append.mp hx with h | h
